@@ -18,7 +18,10 @@ META = {
     "Template sets in which some template does not compile are rendered too: the template that fails must fail the same "
     "way when reached through the ChoiceLoader fallback.  A second part shares ONE loader object between two environments "
     "with different runtime configuration (filters, tests, globals, undefined type) and runs every sequence (up to length 4) of "
-    "load/render operations of the two: the ModuleLoader world must behave exactly like the source-loader world.",
+    "load/render operations of the two: the ModuleLoader world must behave exactly like the source-loader world.  A third part "
+    "runs every history (up to length 4, thorough 5) of add-template / compile_templates into the same directory / render on one "
+    "live ModuleLoader, in an environment whose autoescaping depends on the template name and with identical sources under "
+    "different names; names, escaping and lookups must match a source loader over the templates compiled so far.",
     "note": "Corpus bounds of vf/corpus.py; templates passed as objects in the data are loaded from the environment under "
     "test (so from the precompiled modules); from_string templates are compiled from source in both worlds.",
     "design_ref": "DESIGN.md §4 C31",
@@ -148,7 +151,75 @@ def shared_shard(arg):
     return p
 
 
+# ------------------------------------------------------------------ a template set that grows under one live loader
+GROW = {
+    # identical sources under names that select_autoescape treats differently
+    "main.html": "[{% include 'x.html' ignore missing %}|{% include ['y.txt', 'fb.txt'] ignore missing %}|{{ v }}]",
+    "main.txt": "[{% include 'x.html' ignore missing %}|{% include ['y.txt', 'fb.txt'] ignore missing %}|{{ v }}]",
+    "x.html": "{{ v }}",
+    "y.txt": "{{ v }}",
+    "fb.txt": "fb{{ v }}",
+}
+GROW_OPS = [("add", "x.html"), ("add", "y.txt"), ("add", "fb.txt"), ("compile",), ("render", "main.html"), ("render", "main.txt"),
+            ("render", "x.html"), ("render", "y.txt")]
+
+
+def grow_shard(arg):
+    """histories of add-template / compile_templates-into-the-same-directory / render on ONE live ModuleLoader and
+    environment; the reference world is a live source loader over exactly the templates compiled so far"""
+    import importlib
+    import itertools
+
+    import jinja2
+
+    first, depth = arg
+    p = core.Part()
+    root = core.scratch_dir("c31g")
+    count = 0
+
+    def mkenv(loader):
+        return jinja2.Environment(loader=loader, autoescape=jinja2.select_autoescape(("html",)))
+
+    for rest in itertools.chain.from_iterable(itertools.product(GROW_OPS, repeat=k) for k in range(0, depth)):
+        hist = (first,) + rest
+        count += 1
+        target = os.path.join(root, f"g{count}")
+        os.makedirs(target)
+        present = {"main.html": GROW["main.html"], "main.txt": GROW["main.txt"]}
+        compiled = {}
+        src_env = mkenv(jinja2.DictLoader(compiled))  # reference: sees what has been compiled, live
+        mod_env = mkenv(jinja2.ModuleLoader(target))
+        outs = ([], [])
+        for op in hist:
+            if op[0] == "add":
+                present[op[1]] = GROW[op[1]]
+            elif op[0] == "compile":
+                mkenv(jinja2.DictLoader(dict(present))).compile_templates(target, zip=None, log_function=lambda m: None)
+                importlib.invalidate_caches()
+                compiled.clear()
+                compiled.update(present)
+            else:
+                for env, out in ((src_env, outs[0]), (mod_env, outs[1])):
+                    def go(env=env):
+                        t = env.get_template(op[1])
+                        return (t.name, t.render(v="<&>"))
+                    out.append(corpus.outcome(go))
+        p.evals += 1
+        if len(hist) <= 3:
+            p.sig(("grow", hist, str(outs[0])[:60]))
+        if outs[0] != outs[1]:
+            p.violation("C31/growing-set/" + ("name-or-escaping" if all(isinstance(a, tuple) and isinstance(b, tuple) and len(a) == len(b) == 2 and a[0] != "exc" and b[0] != "exc" for a, b in zip(*outs)) else "lookup"), {
+                "msg": f"history {hist}: via the live ModuleLoader {outs[1]!r}; via a source loader over the compiled set {outs[0]!r}",
+                "script": "print(%r)\n" % {"history": hist, "templates": GROW}})
+        shutil.rmtree(target, ignore_errors=True)
+    p.sample({"part": "growing template set", "first": list(first), "depth": depth, "ops": [list(o) for o in GROW_OPS]}, cap=1)
+    shutil.rmtree(root, ignore_errors=True)
+    return p
+
+
 def dispatch(arg):
+    if arg[0] == "g":
+        return grow_shard(arg[1])
     return shared_shard(arg[1]) if arg[0] == "s" else shard(arg[1])
 
 
@@ -160,6 +231,9 @@ def run(ctx: core.Ctx):
     n = 64
     shards = [("c", (ctx.tier, k, n)) for k in range(n)]
     shards += [("s", (z, name)) for z in (None, "stored", "deflated") for name in ("t", "child", "undef", "lib")]
+    gdepth = 4 if ctx.quick else 5
+    shards += [("g", (op, gdepth)) for op in GROW_OPS]
     ctx.pmap(dispatch, shards)
+    ctx.cov["growing_set_history_depth"] = gdepth + 0
     ctx.cov["bounds"] = {"corpus": str(corpus.BOUNDS["small" if ctx.quick else "quick"]),
                          "zip_modes": [None, "deflated"] if ctx.quick else [None, "stored", "deflated"]}
